@@ -142,6 +142,9 @@ def gen_uamiv_one_day(rng):
         t0 = dt.datetime.strptime('%d %06d' % tuple(c['tflag'][0]), '%Y%j %H%M%S')
         c['tflag'] = [[int((t0 + dt.timedelta(hours=ts * i)).strftime('%Y%j')), int((t0 + dt.timedelta(hours=ts * i)).strftime('%H%M%S'))] for i in range(nt)]
         c['etflag'] = [[int((t0 + dt.timedelta(hours=ts * (i + 1))).strftime('%Y%j')), int((t0 + dt.timedelta(hours=ts * (i + 1))).strftime('%H%M%S'))] for i in range(nt)]
+        if rng.random() < 0.35:
+            # a species whose name occurs inside the name of an earlier one
+            c['species'] = rng.choice([['NO2', 'NO'], ['HNO3', 'NO', 'O3'], ['O3', 'O'], ['ETOH', 'OH'], ['NO3', 'NO', 'O']])
         nspec = len(c['species'])
         c['data'] = [[[[rand_f32_bits(rng) for _ in range(c['nx'] * c['ny'])] for _ in range(c['nz'])] for _ in range(nspec)] for _ in range(nt)]
         c['name'] = rng.choice(['AVERAGE', 'INSTANT'])
